@@ -20,6 +20,8 @@ use sync::*;
 
 mod network_channel;
 mod topology;
+#[cfg(feature = "verif")]
+pub mod verif_hooks;
 
 #[derive(Debug, Clone)]
 pub enum NetworkDataIterator<T> {
